@@ -1820,6 +1820,94 @@ PERL_PACK = {b"c": b"b", b"C": b"B", b"s": b"h", b"S": b"H", b"v": b"H",
              b"A": b"s", b"a": b"s"}
 
 
+# The per-core status block as SARK lays it out (sark.h, vcpu_t): name ->
+# (offset, bytes).  A fact about the machine, like the SCP return codes: the
+# struct file is the package's copy of it.
+VCPU_WIRE = dict(
+    [("r%d" % i, (4 * i, 4)) for i in range(8)] + [
+        ("psr", (0x20, 4)), ("sp", (0x24, 4)), ("lr", (0x28, 4)),
+        ("rt_code", (0x2c, 1)), ("phys_cpu", (0x2d, 1)),
+        ("cpu_state", (0x2e, 1)), ("app_id", (0x2f, 1)),
+        ("mbox_ap_msg", (0x30, 4)), ("mbox_mp_msg", (0x34, 4)),
+        ("mbox_ap_cmd", (0x38, 1)), ("mbox_mp_cmd", (0x39, 1)),
+        ("sw_count", (0x3a, 2)), ("sw_file", (0x3c, 4)),
+        ("sw_line", (0x40, 4)), ("time", (0x44, 4)),
+        ("app_name", (0x48, 16)), ("iobuf", (0x58, 4)),
+        ("sw_ver", (0x5c, 4)),
+        ("user0", (0x70, 4)), ("user1", (0x74, 4)), ("user2", (0x78, 4)),
+        ("user3", (0x7c, 4))])
+_PACK_BYTES = {"A": 1, "c": 1, "C": 1, "v": 2, "V": 4}
+
+
+def _parse_struct_layout(text, name):
+    """{field: (offset, bytes)} and the size of one struct of sark.struct,
+    read the way struct_file.read_struct_file reads it."""
+    def num(v):
+        return int(v, 16) if re.match(r"0[xX][0-9a-fA-F]+$", v) else int(v)
+    out, size, cur = {}, None, None
+    for line in text.splitlines():
+        toks = line.split("#")[0].split()
+        if not toks:
+            continue
+        if len(toks) == 3 and toks[1] == "=":
+            if toks[0] == "name":
+                cur = toks[2]
+            elif toks[0] == "size" and cur == name:
+                size = num(toks[2])
+            continue
+        if cur != name:
+            continue
+        if len(toks) != 5:
+            raise AnalysisError("sark.struct: a line of struct %s does not "
+                                "have five columns" % name)
+        field, pack, offset = toks[:3]
+        m = re.match(r"(\w)(\d+)$", pack)
+        if m:
+            n_, ch = int(m.group(2)), m.group(1)
+        else:
+            n_, ch = 1, pack
+        if ch not in _PACK_BYTES:
+            raise AnalysisError("sark.struct: pack character %r" % pack)
+        m2 = re.match(r"(\w+)\[(\d+)\]$", field)
+        length = 1
+        if m2:
+            field, length = m2.group(1), int(m2.group(2))
+        nbytes = n_ * _PACK_BYTES[ch]
+        if ch != "A":
+            nbytes *= length
+        out[field] = (num(offset), nbytes)
+    return out, size
+
+
+def r6_struct_layout(program, rep):
+    """The vcpu struct of sark.struct places every field where SARK keeps it
+    and gives it the width SARK gives it: the status decode and
+    read_vcpu_struct_field read through this table, so a field one byte
+    narrower silently drops the high byte of what the machine holds."""
+    text = program.read_data("rig/boot/sark.struct").decode("latin-1")
+    lay, size = _parse_struct_layout(text, "vcpu")
+    if len(lay) < 20:
+        raise AnalysisError("sark.struct: vcpu struct not found")
+    inst = "rig/boot/sark.struct:vcpu"
+    rep.check(size == 128, "C14-R6", inst, "the status block is 128 bytes",
+              construct="vcpu size %r" % (size,), positive=True,
+              fail="the vcpu struct is declared %r bytes long; SARK's is "
+                   "128: the blocks of cores other than 0 are read from the "
+                   "wrong addresses" % (size,))
+    for fname, (off, nb) in sorted(VCPU_WIRE.items()):
+        if fname not in lay:
+            continue        # (use of a missing field: C14-R6 above)
+        rep.check(lay[fname] == (off, nb), "C14-R6", inst,
+                  "%s is %d byte(s) at offset 0x%02x" % (fname, nb, off),
+                  construct="vcpu field %s %r" % (fname, lay[fname]),
+                  positive=True,
+                  fail="sark.struct places vcpu.%s at offset 0x%02x, %d "
+                       "byte(s) wide; SARK keeps it at 0x%02x, %d byte(s) "
+                       "wide: what is decoded for it is not what the core "
+                       "holds" % (fname, lay[fname][0], lay[fname][1], off,
+                                  nb))
+
+
 def r6_status_offsets(program, rep):
     """Each field of the per-core status block is decoded at the offset the
     struct description gives for it (fields need not be back to back: the
@@ -1961,6 +2049,7 @@ def check(program, rep):
     rep.guard("C14-R5", r5_busy_states, program, folder, rep)
     rep.guard("C14-R6", r6_status, program, folder, rep)
     rep.guard("C14-R6", r6_status_offsets, program, rep)
+    rep.guard("C14-R6", r6_struct_layout, program, rep)
     # the console buffers and per-core fields are found through
     # read_vcpu_struct_field: the address is computed for the chip and core
     # asked about, each time (C07-R4)
@@ -1979,6 +2068,13 @@ def check(program, rep):
     from .. import namelink as _nl
     rep.guard("C14-R7", _nl.rule, program, rep, "C14-R7",
               [m for m in sorted(program.modules) if m.startswith("rig.machine_control")] + [m for m in sorted(program.modules) if m.startswith("rig.place_and_route")])
+    # a chip that does not answer is reported dead because the failed command
+    # raises an SCPError: every return code the machine can send is filed in
+    # the tables that error is built from (C06-R5)
+    from . import C06 as _C06
+    rep.guard("C06-R5", _C06.r5_code_tables, program, rep, folder)
+    from . import C09 as _C09
+    rep.guard("C14-R6", _C09.r_appstate_wire, program, rep, folder, "C14-R6")
     return finish(rep, program, EXPLANATION, NOT_DECIDED,
                   trusted=["SC&MP cmd_info arg1 layout INFO_ARG1 in "
                            "rules/C14.py", "the checker's parser of "
